@@ -17,10 +17,10 @@ PLAN = {
     "C01": [("chain_subslot", 70, 2500), ("teams_alts", 30, 1000), ("alap_profile", 20, 800)],
     "C02": [("calendars", 110, 4000)],
     "C03": [("chain_subslot", 50, 2000), ("teams_alts", 50, 2000), ("alap_profile", 20, 800)],
-    "C04": [("dags", 100, 4000), ("alap_profile", 20, 800)],
+    "C04": [("dags", 100, 4000), ("alap_profile", 20, 800), ("container_gate", 15, 600)],
     "C05": [("limits_profile", 90, 3500)],
     "C06": [("chain_subslot", 50, 1500), ("alap_profile", 40, 1500), ("dags", 20, 800)],
-    "C07": [("core_dialect", 110, 5000)],
+    "C07": [("core_dialect", 110, 5000), ("container_gate", 25, 1000)],
     "C08": [("core_dialect", 60, 2500), ("alap_profile", 40, 1500), ("calendars", 20, 1000)],
     "C10": [("trees", 60, 2500), ("dags", 30, 1200)],
 }
@@ -47,6 +47,17 @@ def make_jobs(prop, tier, seed):
             jobs.append({"id": "%s-%s" % (prop, pid), "text": p.render(), "scenarios": [0], "abstract": p.abstract(),
                          "profile": name})
     return jobs
+
+
+def regress_jobs(prop):
+    """Inputs that once exposed a (repaired) defect of this property: ordinary regression inputs."""
+    out = []
+    for f in sorted(glob.glob(os.path.join(VERIF, "regress", prop, "*.json"))):
+        j = json.load(open(f))
+        j["id"] = "regress-" + os.path.basename(f)[:-5]
+        j["profile"] = "regress"
+        out.append(j)
+    return out
 
 
 def fixture_jobs(tier):
@@ -166,7 +177,7 @@ def check(prop, tier, replay=None):
             job = json.load(open(replay))
             jobs = [job]
         else:
-            jobs = make_jobs(prop, tier, run.seed) + fixture_jobs(tier)
+            jobs = make_jobs(prop, tier, run.seed) + fixture_jobs(tier) + regress_jobs(prop)
         recs = e1.run_impl(scr, jobs, nproc=14)
         by_id = {j["id"]: j for j in jobs}
         bad_status = [r for r in recs if r.get("status") not in ("ok",)]
@@ -223,32 +234,68 @@ def check(prop, tier, replay=None):
 # ----------------------------------------------------------------------------------------------
 # Engine E2: bounded universes of Sched.tla; all properties are invariants of the spec there, and every
 # terminal state is replayed into the real code (spec -> code).  (module, quick cfg, thorough cfg, project length)
+# mode "final": compare final dates with the terminal state (C07: equality with the reference is the property);
+# mode "trace": every project of the universe is traced and judged by the property predicates of TraceSched
 MC_PLAN = {
-    "C07": [("MC_Core", "MC_Core.cfg", "MC_CoreFull.cfg", "+1w")],
+    "C07": [("MC_Core", "MC_Core.cfg", "MC_CoreFull.cfg", "+1w", "final")],
+    "C01": [("MC_SubSlot", None, "MC_SubSlot.cfg", "+1w", "trace")],
+    "C03": [("MC_SubSlot", None, "MC_SubSlot.cfg", "+1w", "trace")],
+    "C06": [("MC_SubSlot", None, "MC_SubSlot.cfg", "+1w", "trace")],
 }
 
 
 def run_universes(run, scr, prop, tier):
     from harness import e2
-    for module, qcfg, tcfg, length in MC_PLAN[prop]:
-        res, terms = e2.run_universe(module, qcfg if tier == "quick" else tcfg, timeout=6000)
+    for module, qcfg, tcfg, length, mode in MC_PLAN[prop]:
+        cfg = qcfg if tier == "quick" else tcfg
+        if cfg is None:
+            continue
+        res, terms = e2.run_universe(module, cfg, timeout=6000)
         run.add_tlc(res)
         if res.invariant_violated:
             raise MachineryError("the specification violates its own invariant %s on %s (spec defect, not a verdict about the code):\n%s"
                                  % (res.invariant_violated, module, e2.strip_terminals(res.out)[-1500:]))
         if not terms:
             raise MachineryError("%s produced no terminal states" % module)
-        n, mism = e2.replay_terminals(scr, terms, length=length)
-        run.cov["traces_validated_against_impl"] += n
-        run.cov["evaluations"] += n
-        run.notes.setdefault("universes", []).append({"module": module, "projects": n, "states": res.distinct, "disagree": len(mism)})
-        for t in terms:
-            if len([x for x in t["project"]["tasks"] if x["leaf"]]) >= 3:
-                run.nontrivial(phash(t["project"]["tasks"]))
-        for m in mism[:20]:
-            run.violation("%s-u%06d" % (module, m["idx"]), {"id": "%s-u%06d" % (module, m["idx"]), "text": m["text"], "scenarios": [0]},
-                          {"universe": module, "why": "final dates of the implementation differ from the terminal state of Sched.tla",
-                           "expected": m["expected"], "got": m["got"]})
-        if mism[20:]:
-            run.notes["more_disagreements"] = len(mism) - 20
+        if mode == "final":
+            n, mism = e2.replay_terminals(scr, terms, length=length)
+            run.cov["traces_validated_against_impl"] += n
+            run.cov["evaluations"] += n
+            run.notes.setdefault("universes", []).append({"module": module, "projects": n, "states": res.distinct, "disagree": len(mism)})
+            for t in terms:
+                if len([x for x in t["project"]["tasks"] if x["leaf"]]) >= 3:
+                    run.nontrivial(phash(t["project"]["tasks"]))
+            for m in mism[:20]:
+                run.violation("%s-u%06d" % (module, m["idx"]), {"id": "%s-u%06d" % (module, m["idx"]), "text": m["text"], "scenarios": [0]},
+                              {"universe": module, "why": "final dates of the implementation differ from the terminal state of Sched.tla",
+                               "expected": m["expected"], "got": m["got"]})
+            if mism[20:]:
+                run.notes["more_disagreements"] = len(mism) - 20
+        else:
+            jobs = []
+            for i, t in enumerate(terms):
+                A = t["project"]
+                gen_abs = {"tasks": A["tasks"], "res": [dict(r, tzname="") for r in A["res"]], "vac": A["vac"], "gleaves": A["gleaves"], "alap": A["alap"]}
+                jobs.append({"id": "%s-%s-u%06d" % (prop, module, i), "text": gen.render_abstract(A, length=length), "scenarios": [0], "abstract": gen_abs})
+            recs = e1.run_impl(scr, jobs, nproc=14)
+            vs, res2 = e1.validate(recs)
+            run.add_tlc(res2)
+            run.cov["traces_validated_against_impl"] += len(vs)
+            by_id = {j["id"]: j for j in jobs}
+            bad = 0
+            for r in recs:
+                if "project" not in r:
+                    raise MachineryError("universe project rejected by the implementation: %s %s" % (r["id"], r.get("error", "")[-300:]))
+                run.evaluated()
+                v = vs[r["id"]]
+                if nontrivial(prop, r):
+                    run.nontrivial(phash(r["project"]["tasks"]))
+                viol, summary = is_violation(prop, r, v)
+                if viol:
+                    bad += 1
+                    if bad <= 20:
+                        job = by_id[r["id"]]
+                        run.violation(r["id"], {"id": job["id"], "text": job["text"], "abstract": job["abstract"], "scenarios": [0]}, summary)
+            run.notes.setdefault("universes", []).append({"module": module, "projects": len(jobs), "states": res.distinct, "violating": bad,
+                                                          "mode": "every project traced and judged by TraceSched"})
         run.cov["exhaustive"] = True
